@@ -9,6 +9,7 @@ import SynRBLModel.Driver.Ops.Merge
 import SynRBLModel.Driver.Ops.McsSelect
 import SynRBLModel.Driver.Ops.Cache
 import SynRBLModel.Driver.Ops.Standardize
+import SynRBLModel.Driver.Ops.PostProcess
 /-! Operation table of the driver: every layer contributes a partial dispatcher `dispatch? : String → Json → Option (R Json)`. -/
 namespace SynRBL.Drv
 open Lean
@@ -23,7 +24,8 @@ def dispatchers : List (String → Json → Option (R Json)) := [
   Merge.dispatch?,
   McsSelect.dispatch?,
   Cache.dispatch?,
-  Standardize.dispatch?
+  Standardize.dispatch?,
+  PostProcess.dispatch?
 ]
 
 def dispatch (op : String) (j : Json) : R Json :=
